@@ -58,6 +58,10 @@ type Loop struct {
 	hasVar  bool
 	invs    []*Clause
 	dec     *Clause
+	// pre / preVals: the state and the values of the header phis when the loop is
+	// entered (what before(...) in the loop's clauses refers to)
+	pre     *State
+	preVals map[*ssa.Phi]Term
 }
 
 func (f *Frame) pos(p token.Pos) string {
